@@ -634,3 +634,33 @@ def k_json_prim():
     pre = [z3.ULT(vd, len(V)), z3.ULT(kind, 3), z3.Implies(kind == 1, i < 0)]
     I, exits = run_fn(funcs, "map_json_primitive", [val], pre, stubs=json_number_models(kind, u, i))
     return I, exits, (vd, kind, u, i)
+
+
+# ---------------------------------------------------------------- K-take-step: one iteration of range_of_ranges from an arbitrary `current`
+def k_take_step():
+    funcs = load(r"range_of_ranges|or_map|try_range_into_int")
+    fn = funcs["gen_expr::range_of_ranges"]
+    start_bb = loop_head = None
+    for n, b in fn.blocks.items():
+        if b.term and b.term[0] == "call" and "try_range_into_int(" in b.term[2]:
+            start_bb = n
+        if b.term and b.term[0] == "call" and "as Iterator>::next(" in b.term[2]:
+            loop_head = n
+    cur_loc = None
+    for nm, pl in fn.debug_list:
+        if nm == "current":
+            cur_loc = int(pl[1:])
+    item_loc = None
+    for lhs, rhs in fn.blocks[start_bb].stmts:
+        mm = re.match(r"move \(\(_(\d+) as Some\)\.0:", rhs)
+        if mm:
+            item_loc = int(mm.group(1))
+    if None in (start_bb, loop_head, cur_loc, item_loc):
+        raise core.EngineError(f"K-take-step: anchors not found ({start_bb}, {loop_head}, {cur_loc}, {item_loc})")
+    cs, ccs = sym_option("cur_s", SInt(z3.BitVec("cur_sv", 64), 64, True))
+    ce, cce = sym_option("cur_e", SInt(z3.BitVec("cur_ev", 64), 64, True))
+    cur = SAgg("struct", "Range", {0: cs, 1: ce, "start": cs, "end": ce})
+    r, rc = sym_range(0)
+    I = Interp(funcs, stubs={"try_range_into_int": stub_try_range_into_int}, unwind=3, timeout_s=120)
+    exits = run_slice(I, fn, start_bb, {cur_loc: cur, item_loc: some(r)}, loop_head, pre=[ccs, cce] + rc)
+    return I, exits, cur_loc
